@@ -314,6 +314,17 @@ pub fn scenarios(_tier: &str) -> Vec<Scenario> {
     add("upgrade-after-large-get", vec![RequestSpec::new("GET", 0), upg(1)], vec![HandlerProgram::ok(BodySpec::Bytes(data(70_000, 3))), ok_bytes()], &|s| s.config.upgrade = true);
     add("upgrade-after-streaming-get", vec![RequestSpec::new("GET", 0), upg(1)], vec![HandlerProgram::ok(BodySpec::BodyStream(vec![Chunk::Data(b"he".to_vec()), Chunk::Pending, Chunk::Data(b"llo".to_vec())])), ok_bytes()], &|s| s.config.upgrade = true);
     add("upgrade-requested-but-no-upgrade-service", vec![RequestSpec::new("GET", 0), upg(1)], vec![ok_bytes(), ok_bytes()], &nop);
+    // an unfinished head of exactly the read-buffer limit (and one more byte): the read gate and
+    // the decoder's limit must agree, otherwise the task spins on its own wake-ups or stalls
+    for (n, len) in [("limit", 131_072usize), ("limit+1", 131_073)] {
+        add(&format!("unfinished-head-at-{n}-peer-stays"), vec![RequestSpec::new("GET", 0)], vec![ok_bytes()], &|s| {
+            let mut tail = b"GET /1 HTTP/1.1\r\nx-endless: ".to_vec();
+            tail.resize(len, b'a');
+            s.tail = tail;
+            s.fin = FinPlan::Never;
+            s.env.budgets = vec![("read", 12), ("write", 8), ("flush", 4), ("env", 16), ("envq", 6), ("shutdown", 2)];
+        });
+    }
     // early response + linger
     add("early-response-linger", vec![RequestSpec::new("POST", 0).cl(&data(64, 1))], vec![ok_bytes().plan(PayloadPlan::HoldUnreadUntilBodyDone)], &|s| {
         s.config.disconnect_timeout_ms = 1000;
